@@ -871,7 +871,7 @@ def _check_model_and_spec(ctx, rec, o, reply, bad, known_ids, count, is_base=Fal
     if count:
         ctx.count('spec:' + spec['status'])
         if reply['class']:
-            ctx.count('lean-class:pf11free=%s,pf04free=%s' % (reply['class'].get('pf11free'), reply['class'].get('pf04free')))
+            ctx.count('lean-class:clean=%s' % reply['class'].get('clean'))
     # --- correspondence: implementation against the program-side model
     if model['status'] == 'skipped':
         return
